@@ -371,19 +371,21 @@ func TestC03Stress(t *testing.T) {
 				// among them, nothing will ever wake it (looked at twice)
 				callersGone := make(chan struct{})
 				go func() { wg.Wait(); close(callersGone) }()
+				// (a caller may itself be blocked for good, e.g. a delivery into a channel that is
+				// no longer read: the callers are given a moment, not waited for)
 				select {
 				case <-callersGone:
-					st1 := svc.Stalled("Shutdown")
-					time.Sleep(300 * time.Millisecond)
-					st2 := svc.Stalled("Shutdown")
-					select {
-					case <-done:
-					default:
-						if st1 != "" && st2 != "" {
-							rt.Fatalf("Shutdown never returns: %s", st2)
-						}
+				case <-time.After(5 * time.Second):
+				}
+				st1 := svc.Stalled("Shutdown")
+				time.Sleep(500 * time.Millisecond)
+				st2 := svc.Stalled("Shutdown")
+				select {
+				case <-done:
+				default:
+					if st1 != "" && st2 != "" {
+						rt.Fatalf("Shutdown never returns: %s", st2)
 					}
-				case <-time.After(30 * time.Second):
 				}
 				rt.Fatalf("VERIF-INCONCLUSIVE: Shutdown did not return within 30s in free-running mode (the bubble variant decides hangs exactly)")
 			}
